@@ -1,8 +1,39 @@
 package main
 
+import (
+	"fmt"
+
+	"github.com/pentops/j5/internal/zzverif/j5sgen"
+)
+
 // generatedProgram adapts the seeded bundle generator (sim/j5sgen) to Program.
 func generatedProgram(seed uint64, cfgName string) *Program {
-	b := builtinPrograms()
-	p := b[int(seed%uint64(len(b)))].Clone()
-	return p
+	var cfg j5sgen.Config
+	name := ""
+	r := seed % 10
+	switch cfgName {
+	case "large":
+		switch {
+		case r < 3:
+			cfg, name = j5sgen.SmallConfig(), "small"
+		case r < 7:
+			cfg, name = j5sgen.DefaultConfig(), "default"
+		default:
+			cfg, name = j5sgen.LargeConfig(), "large"
+		}
+	default:
+		if r < 6 {
+			cfg, name = j5sgen.SmallConfig(), "small"
+		} else {
+			cfg, name = j5sgen.DefaultConfig(), "default"
+		}
+	}
+	b := j5sgen.Generate(seed, cfg)
+	return &Program{
+		Name:     fmt.Sprintf("j5sgen/%s/%d", name, seed),
+		Packages: b.Packages,
+		Files:    b.Files,
+		Deps:     b.Deps,
+		Features: b.Features,
+	}
 }
